@@ -539,3 +539,18 @@ def main(prop, tier="quick", seed=1, jobs=None, replay=None):
     print(f"OK property={prop} tier={tier} seed={seed} examples={merged.examples} evaluations={merged.evals} "
           f"distinct_nontrivial={len(merged.nt)} regress={n_regress} wall={time.time() - t0:.1f}s")
     return 0
+
+
+def draw_corpus(strategy, n, seed):
+    """n cases drawn deterministically from a strategy (no shrinking, no assertions)"""
+    import hypothesis
+    from hypothesis import given, settings, HealthCheck, Verbosity, Phase
+    out = []
+
+    def collect(case):
+        out.append(case)
+
+    hypothesis.seed(seed)(settings(max_examples=n, deadline=None, database=None, phases=[Phase.generate],
+                                   verbosity=Verbosity.quiet, suppress_health_check=list(HealthCheck))(
+        given(strategy)(collect)))()
+    return out
